@@ -1,4 +1,5 @@
 # Licensed under a 3-clause BSD style license - see LICENSE.rst
+import copy
 import functools
 import itertools
 import warnings
@@ -286,15 +287,19 @@ class WCS(GWCSAPIMixin):
             An analytical inverse does not exist.
 
         """
+        forward = self.forward_transform
         try:
-            backward = self.forward_transform.inverse
+            backward = forward.inverse
         except NotImplementedError as err:
             raise NotImplementedError("Could not construct backward transform. \n{0}".format(err))
+        if forward.has_user_inverse:
+            # ``backward`` is the user's own model: it is not to be changed
+            backward = copy.copy(backward)
         # The inverse of the backward transform is the forward transform. Do not
         # rely on the inverse computed from the pieces of ``backward``: a
         # user-supplied inverse may have an inverse of its own which differs
         # from the step it was attached to.
-        backward.inverse = self.forward_transform
+        backward.inverse = forward
         return backward
 
     def _get_frame_index(self, frame):
